@@ -9,7 +9,7 @@ for d in sorted(glob.glob('/tmp/wt/C??')):
     pid = os.path.basename(d)
     if only and pid not in only:
         continue
-    for k in (1, 2):
+    for k in (1, 2, 3):
         key = '%s-%d' % (pid, k)
         diff = os.path.join(d, 'MUTANT_%d.diff' % k)
         if not os.path.exists(diff) or key not in conf:
